@@ -136,7 +136,7 @@ def run(ctx):
     avail = zoneinfo.available_timezones()
     pick = (zones + sorted(z for z in avail if z.startswith('Etc/GMT'))) if ctx.thorough else (['America/Edmonton', 'Europe/Berlin', 'Australia/Lord_Howe', 'America/St_Johns', 'Asia/Kolkata',
                                         'Pacific/Apia', 'America/Sao_Paulo', 'Africa/Casablanca', 'Asia/Tehran', 'Europe/London']
-                                       + [z for z in ('Etc/GMT-14', 'Etc/GMT+5', 'Etc/GMT-1', 'Etc/GMT+12', 'GMT+0', 'Etc/GMT0', 'America/Argentina/ComodRivadavia', 'America/North_Dakota/New_Salem') if z in avail]      # names ending in digits / signs, three-level and underscored names
+                                       + [z for z in ('Etc/GMT-14', 'Etc/GMT+5', 'Etc/GMT-1', 'Etc/GMT+12', 'GMT+0', 'Etc/GMT0', 'America/Argentina/ComodRivadavia', 'America/North_Dakota/New_Salem', 'Africa/Monrovia') if z in avail]      # names ending in digits / signs, three-level and underscored names
                                        + rng.sample(zones, 14))
     LO, HI = 31536000, 2082758400             # 1971 .. 2036: inside every zone file's explicit transition table
     insts = []                                # (zone, value, precision)
